@@ -20,12 +20,18 @@
   the beam-splitter tree of depth `L` IS the wire law of `2^L` wires (`Lemmas/C08Tree.lean`).
   `simulate_detectors` at a positive `min_p`: exact law and deviation bound (`Lemmas/C08MinP.lean`).
   `check_heralds_detectors`: exact characterisation of its three results (`Lemmas/C08Heralds.lean`).
+  Heralds with detectors (`Model/C08Glue.lean`, the tail of `Simulator.probs_svd`): heralds are read on the
+  detector READINGS; the backend's heralds mask (selection on theoretical photon counts) is only used in the
+  all-PNR case where it is proved transparent; a pseudo-PNR reading below the maximum is proved NOT to identify
+  the photon count (`reading_below_max_not_exact`), so masking before such a detector is unsound
+  (`mask_before_detectors_unsound`).
   What is still not proved is listed at the end of this file.
 -/
 import PercevalModel.Lemmas.C08
 import PercevalModel.Lemmas.C08Tree
 import PercevalModel.Lemmas.C08MinP
 import PercevalModel.Lemmas.C08Heralds
+import PercevalModel.Model.C08Glue
 import Mathlib.Algebra.Order.Field.Rat
 
 set_option linter.unusedSectionVars false
@@ -644,6 +650,89 @@ theorem sample_law_is_kernel_product {minP : K} (hmin : minP ≤ 0) (ds : List (
 
 end samplePath
 
+
+/-! ## heralds read through detectors (`Simulator.probs_svd`, i.e. `Processor.probs()` with detectors) -/
+section glue
+variable {K : Type} [Field K] [LinearOrder K] [IsStrictOrderedRing K]
+
+/-- **the heralds mask is transparent as coded.** `probs_svd` lets the backend drop the theoretical states
+that do not have exactly the heralded photon counts only when there are heralds and the global detection type
+is PNR; for every theoretical distribution, detector list, photon filter and herald set the result is the one
+obtained WITHOUT the mask: detectors first, heralds read on the readings afterwards. -/
+theorem heralds_mask_transparent (minP : K) (base : Dist (List ℕ) K) (ds : List (AnyDet K))
+    (minPhotons : Option ℕ) (h : List (ℕ × ℕ)) :
+    probsTailCoded minP base ds minPhotons h = probsTail false minP base ds minPhotons h := by
+  unfold probsTailCoded
+  by_cases hm : useMask h ds = true
+  · rw [hm]
+    have hp : detectionType ds = .PNR := by
+      unfold useMask at hm
+      simp only [Bool.and_eq_true, decide_eq_true_eq] at hm
+      exact hm.2
+    unfold probsTail
+    simp only [if_true, Bool.false_eq_true, if_false]
+    rw [simulate_pnr_identity minP _ ds minPhotons (Or.inr hp),
+      simulate_pnr_identity minP base ds minPhotons (Or.inr hp)]
+    simp only [selectHeralds_idem]
+  · simp only [Bool.not_eq_true] at hm
+    rw [hm]
+
+/-- **heralds are read on the detector readings.** At every state `t`, the herald-selected result of
+`probs_svd` holds the entry that `simulate_detectors` (applied to the complete theoretical distribution) has at
+`t` when the readings `t` satisfy the heralds, and nothing otherwise.  With `simulate_detectors_pointwise` /
+`simulate_detectors_normalised` this is: every theoretical state `s` — whatever its photon count in the heralded
+modes — contributes `p · ∏ᵢ kernelᵢ(sᵢ)(tᵢ)`. -/
+theorem heralds_read_on_readings (minP : K) (base : Dist (List ℕ) K) (ds : List (AnyDet K))
+    (minPhotons : Option ℕ) (h : List (ℕ × ℕ)) (t : List ℕ) :
+    prob (probsTailCoded minP base ds minPhotons h).1 t
+      = if heraldsOk h t then prob (simulate minP base ds minPhotons).1 t else 0 := by
+  rw [heralds_mask_transparent]
+  exact prob_selectHeralds h _ t
+
+/-- **a pseudo-PNR reading below the maximum does not identify the photon count.** For every constructible
+`Detector(w, maxd)` and every reading `1 ≤ v < max_detections`, `v + 1` photons give the reading `v` with positive
+probability (`C(w,v)·C(v+1,2)·v!/w^(v+1)`): selecting theoretical states with exactly `v` photons in a mode read by
+such a detector loses probability. -/
+theorem reading_below_max_not_exact {w : ℕ} {maxd : Option ℕ} {d : Det}
+    (hd : mkDetector (some w) maxd = .ok d) {minP : K} (hmin : minP ≤ 0) {v : ℕ} (hv : 1 ≤ v)
+    (hlt : v < maxd.getD w) :
+    0 < prob (d.detect minP (v + 1)).toDist v := by
+  obtain ⟨hw, _, hle⟩ := mkDetector_some hd
+  have hmax : maxd ≠ some 0 := by
+    intro h0; rw [h0] at hlt; simp at hlt
+  rw [detect_fold hd hmax hmin]
+  unfold readLaw
+  rw [if_pos hlt]
+  unfold closed
+  apply div_pos
+  · have : 0 < surjCount w v (v + 1) := by
+      unfold surjCount
+      rw [Nat.stirlingSecond_succ_self_left]
+      exact Nat.mul_pos (Nat.mul_pos (Nat.choose_pos (by omega)) (Nat.choose_pos (by omega)))
+        (Nat.factorial_pos v)
+    exact_mod_cast this
+  · exact pow_pos (by exact_mod_cast hw) _
+
+end glue
+
+/-- **masking before an imperfect detector is unsound** (why `init_use_mask` must require the PNR detection
+type, whatever the expected reading): two photons on `Detector.ppnr(2)`, herald expecting 1 on that mode — the
+mask drops the state and nothing is left, whereas the reading 1 occurs with probability 1/2. -/
+theorem mask_before_detectors_unsound :
+    (probsTail true (0 : ℚ) [([2], 1)] [.det (.wired 2 2)] none [(0, 1)]).1 = [] ∧
+    (probsTail false (0 : ℚ) [([2], 1)] [.det (.wired 2 2)] none [(0, 1)]).1 = [([1], 1 / 2)] := by
+  have h : detectWired 2 2 (0 : ℚ) 2 = [(1, 1 / 2), (2, 1 / 2)] := by
+    norm_num [detectWired, detectLoop, List.range', addP, bump, condProb]
+  have hd : (Det.wired 2 2).detect (0 : ℚ) 2 = .dist [(1, 1 / 2), (2, 1 / 2)] := by
+    rw [detect_wired_big 2 2 0 (by omega) (by omega), h]
+  have hty : detectionType ([.det (.wired 2 2)] : List (AnyDet ℚ)) = .PPNR := by
+    simp [detectionType, detTypeLoop, AnyDet.type, Det.type]
+  constructor
+  · simp [probsTail, selectHeralds, heraldsOk, simulate, simulateRaw, hty]
+  · simp [probsTail, selectHeralds, heraldsOk, simulate, simulateRaw, hty, simGeneral, simState, stateDist,
+      listTensor, AnyDet.kernel, AnyDet.detect, hd, DetOut.toDist, belowFilter, addP, bump, normalize, mass]
+    norm_num
+
 /-! ## non-vacuity and concrete values (evaluated by the kernel over ℚ) -/
 section examples
 
@@ -766,6 +855,14 @@ example :
   subst h2
   omega
 
+/-- `reading_below_max_not_exact`: hypotheses satisfiable (`Detector.ppnr(3)`, reading 1 < 3) -/
+example : mkDetector (some 3) none = .ok (.wired 3 3) ∧ (0 : ℚ) ≤ 0 ∧ (1 : ℕ) ≤ 1 ∧
+    1 < (none : Option ℕ).getD 3 := by
+  refine ⟨rfl, le_refl _, le_refl _, ?_⟩
+  show 1 < 3
+  omega
+
+
 /-
   STILL NOT PROVED (validated by the correspondence only):
   * that the native SLOS backend returns, on `BSLayeredPPNR.create_circuit()`, the multinomial leaf law
@@ -776,7 +873,10 @@ example :
     `kernel_entry_minp` / `detect_fold_minp`, and `simulate_detectors_normalised` (any `min_p`), from
     which such a bound follows by dividing — not carried out);
   * `sample_law_is_kernel_product` for `min_p > 0`; `prob_threshold > 0`; the statistical quality of
-    `BSDistribution.sample`.
+    `BSDistribution.sample`;
+  * `Model/C08Glue.lean` takes the theoretical distribution `base` of the backend as given and stops before the
+    final `normalize()`, the removal of the heralded modes and the PostSelect expression (applied by the harness);
+    the logical performance is not modelled (compared with the exact oracle on every run).
 -/
 
 end examples
